@@ -9,7 +9,7 @@ import ast
 from ..rules import (ModeGate, GateAnalysis, chain_text, chain_key, eval_mode_test,
                      is_mode_expr, mentions_mode)
 from ..effects import MUTATING
-from ..cfg import cfg_of
+from ..cfg import cfg_of, always_raises
 from ..astutil import dotted, get_arg, derived, norm, enclosing, names_in
 from ..srcmodel import own_nodes, AnalysisError
 
@@ -190,6 +190,7 @@ def run(ctx):
     ctx.info['creators_excluded'] = CREATORS
 
     d2_opener(ctx, GA)
+    d7_flag_gates_and_borrowers(ctx, mut_entries)
     d3_setters(ctx)
     d4_overrides(ctx)
     d5_defaults(ctx)
@@ -496,3 +497,80 @@ def d5_defaults(ctx):
     ctx.decide(val is not None and set(val) == {'r', 'r+'}, 'R-TABLE', 'D5', ca, d, 'validmodes',
                "check_accessmode accepts exactly {'r', 'r+'} by default",
                detail=f'validmodes default is {norm(d) if d is not None else "absent"}')
+
+
+class StrictModeGate(ModeGate):
+    """G1 only: a comparison of an access-mode value; writeable-flag tests do not count."""
+    name = 'mode-gate-strict'
+
+    def classify_if(self, st, func, ctx):
+        if not (always_raises(st.body) or always_raises(st.orelse)):
+            return None
+        t = st.test
+        r, rw = eval_mode_test(t, 'r'), eval_mode_test(t, 'r+')
+        if r is None or rw is None:
+            return None
+        ro_raises = always_raises(st.body) if r else always_raises(st.orelse)
+        rw_raises = always_raises(st.body) if rw else always_raises(st.orelse)
+        return ('gate', f'G1 mode test `{norm(t)}`') if ro_raises and not rw_raises else None
+
+    def forbidden_fold(self, func, ctx):
+        return lambda test: eval_mode_test(test, 'r')
+
+
+PATH_BASED = {'RESIZE', 'DELETE', 'RMDIR', 'RMTREE', 'TRUNC-WRITE', 'CREATE', 'RENAME', 'WRITE-PATH'}
+
+
+def d7_flag_gates_and_borrowers(ctx, mut_entries):
+    """The writeable flag of whatever the opener yields reflects the mode in which the *owner* of the shared cache
+    opened the map.  When the opener has a borrower path (it yields the cached object of another, still suspended
+    user) that need not be the handle's current mode: after `a.accessmode = 'r'` a suspended iterchunks generator or
+    an open context still lends out its 'r+' map.  Effects that do not go through that map at all (truncation or
+    deletion by path, descriptor/README rewrites) therefore need a gate on the handle's own mode."""
+    from ..escape import find_opener
+    opener, mattr, fdattr = find_opener(ctx)
+    g = cfg_of(opener)
+    regs = [n for n in own_nodes(opener.node) if isinstance(n, ast.Assign) and
+            any(dotted(x) == f'self.{mattr}' for x in n.targets) and
+            not (isinstance(n.value, ast.Constant) and n.value.value is None)]
+    ys = [n for n in own_nodes(opener.node) if isinstance(n, ast.Yield)]
+    borrower = any(not any(g.can_reach(g.node_for(r), g.node_for(y), skip_labels=('exc',)) for r in regs) for y in ys)
+    if not borrower:
+        ctx.ok('R-DOM', 'D7', opener, None, 'flag-gate-vs-borrowed-map',
+               f'{opener.qualname} has no borrower path: the flag of the yielded map always reflects the requested mode')
+        return
+    # element assignment goes through the map itself, so its flag is the right gate — unless the map can be one that was
+    # opened before the handle's mode was changed: the accessmode setter must refuse or invalidate an open map
+    A = ctx.repo.cls('Array')
+    setter = A.setters.get('accessmode')
+    touches = setter is not None and any(isinstance(n, ast.Attribute) and dotted(n) in (f'self.{mattr}', f'self.{fdattr}')
+                                         for n in own_nodes(setter.node))
+    ctx.decide(touches, 'R-DOM', 'D7', opener, None, 'stale-writeable-map-after-mode-switch',
+               'the accessmode setter refuses or invalidates a memory map that is still open (so that the writeable flag '
+               'judged by the write gate of __setitem__ always reflects the current mode)',
+               detail='after `a.accessmode = \'r\'` a map opened in \'r+\' by a still suspended generator/context is lent '
+                      'out to __setitem__: the assignment is written to the file', role_key='memmap-opener')
+    GA2 = GateAnalysis(ctx, StrictModeGate())
+
+    def pathsite(e):
+        if not is_site(e) or e.kind not in PATH_BASED:
+            return False
+        if e.kind == 'RESIZE' and e.handle is not None:
+            return False              # through an open handle: refused by the OS in mode 'r'
+        return True
+    n = 0
+    for f in mut_entries:
+        if f.cls is None or f.cls.name in ('Array',) or f.cls is None:
+            pass
+        ung = GA2.ungated(f, pathsite)
+        if not GA2.gated_sites(f, pathsite):
+            continue
+        n += 1
+        wit = [f'{e.describe()} via {chain_text(chain)}' for chain, e in ung]
+        ctx.decide(not ung, 'R-DOM', 'D7', f, None, f'path-effects-need-mode-gate::{f.qualname}',
+                   f'entry {f.qualname}: every by-path mutation (truncate/unlink/rmdir/descriptor rewrite) is dominated by a '
+                   f'test of the handle\'s own access mode',
+                   detail=f'{len(ung)} by-path effect(s) are protected only by the writeable flag of the map the opener '
+                          f'yields, which may be a map borrowed from a still suspended generator/context opened before the '
+                          f'handle was switched to \'r\': first {wit[0] if wit else ""}', witness=wit)
+    ctx.floor('C11 entries with by-path effects', n, 8)
